@@ -7,7 +7,7 @@ use crate::rng::{derive, Rng};
 use serde_json::json;
 
 const RULE: &str = "cells = (message kind in {bank, staking, distribution, custom, ibc, gov, stargate, any} | query kind in {bank, staking, custom, ibc, stargate, grpc}) \
-x origin in {top level; sub-message of the custom-typed contract at depth 1-3; sub-message of the Empty-typed contract lifted by new_with_empty at depth 1-3} x entry point of the emitting contract (execute at every depth; instantiate, reply, sudo, migrate at depth 1-2) \
+x origin in {top level; sub-message of the custom-typed contract at depth 1-3; sub-message of the Empty-typed contract lifted by new_with_empty at depth 1-3} x entry point of the emitting contract (execute at every depth; instantiate, reply after success, reply after a failed sub-message, sudo, migrate at depth 1-2) \
 x all 2^6 accept/fail settings of recording modules (custom, staking, distribution, ibc, gov, stargate; bank records and delegates to the real keeper) \
 x reply mode of the emitting sub-message (Never, Always, Error = failure caught) x with/without an earlier sibling to another module; plus 4 compiled \
 configurations of the built-in Accepting/Failing module types, and sudo routing. Oracle per cell: exactly one new log entry, in module(kind), with the true sender \
@@ -48,8 +48,8 @@ pub fn run(ctx: &Ctx) -> Report {
                     for o in origins {
                         // every entry point of the emitting contract at depth 1; execute at every depth
                         let ents: &[Ent] = match o {
-                            Origin::Puppet(1) | Origin::Lifted(1) => &[Ent::Execute, Ent::Instantiate, Ent::Reply, Ent::Sudo, Ent::Migrate],
-                            Origin::Puppet(2) | Origin::Lifted(2) => &[Ent::Execute, Ent::Instantiate, Ent::Reply],
+                            Origin::Puppet(1) | Origin::Lifted(1) => &[Ent::Execute, Ent::Instantiate, Ent::Reply, Ent::ReplyErr, Ent::Sudo, Ent::Migrate],
+                            Origin::Puppet(2) | Origin::Lifted(2) => &[Ent::Execute, Ent::Instantiate, Ent::Reply, Ent::ReplyErr],
                             _ => &[Ent::Execute],
                         };
                         for &ent in ents {
